@@ -13,9 +13,10 @@ and random long bodies."""
 import itertools
 import multiprocessing
 import random
+import time
 
 import implrun  # noqa: F401  (sets sys.path)
-from core import Exn, slit, zlit, zlist
+from core import slit, zlit, zlist, to_v
 
 IMPORTS = "Require Import PW.model.CachedInput."
 ALPHA = b"ab\r\n"
@@ -86,24 +87,54 @@ def replay(body, n, block, shorts, calls, limit=SPIN_LIMIT):
     return entries, reader, stream
 
 
+def rle(data):
+    """Coq term for bytes: a literal, or run-length coded when long"""
+    if len(data) < 200:
+        return slit(data)
+    segs = ["(%d,%d)" % (byte, len(list(grp)))
+            for byte, grp in itertools.groupby(data)]
+    return "(expand [%s])" % ";".join(segs)
+
+
 def expected(entries):
-    return [Exn("Spin") if e is None else
-            [e[0], [[k, g] for k, g in e[1]]] for e in entries]
+    """V term text of a history's observable outcome (rendered here: core
+    is loaded twice when run as a script, so its Exn class is not shared)"""
+    out = []
+    for e in entries:
+        if e is None:
+            out.append('(VX "Spin")')
+        else:
+            out.append("(VL [(VY %s); %s])" % (
+                rle(e[0]), to_v([[k, g] for k, g in e[1]])))
+    return "(VL [%s])" % ";".join(out)
 
 
 def term(body, n, block, shorts, calls, limit=SPIN_LIMIT):
     cs = "[" + ";".join("(%d,%s)" % (0 if k == "read" else 1, zlit(s))
                         for k, s in calls) + "]"
     return "run_hist %d %s %s %s %s %s" % (
-        limit + 1, slit(body), zlit(n), zlit(block), zlist(shorts), cs)
+        limit + 1, rle(body), zlit(n), zlit(block), zlist(shorts), cs)
+
+
+def readable(data):
+    if len(data) <= 400:
+        return data.decode("latin-1")
+    return [[chr(byte), len(list(grp))] for byte, grp in
+            itertools.groupby(data)]
 
 
 def describe(payload):
-    body, n, block, shorts, calls = payload
-    return {"body": body.decode("latin-1"), "n": n, "block": block,
-            "shorts": list(shorts), "calls": [list(c) for c in calls],
-            "replay": "CachedInput(Stream(body, shorts), n, block, "
-                      "timeout=None); then the calls in order"}
+    body, n, block, shorts, calls = payload[:5]
+    out = {"body": readable(body), "n": n, "block": block,
+           "shorts": list(shorts), "calls": [list(c) for c in calls],
+           "replay": "CachedInput(Stream(body, shorts), n, block, "
+                     "timeout=None); then the calls in order"}
+    if len(payload) > 5:        # what the implementation did
+        out["implementation"] = [
+            "more reads than the spin limit" if e is None else
+            {"result": readable(e[0]), "reads": [list(p) for p in e[1]]}
+            for e in payload[5]]
+    return out
 
 
 # ------------------------------------------------------------------ monitor
@@ -154,6 +185,9 @@ def monitor(body, n, block, shorts, calls, entries, stream_at_eof):
             hit("empty-result-before-end-of-input", i,
                 returned=returned.decode("latin-1"),
                 want=want.decode("latin-1"))
+        # -- the caller's size limit
+        if size >= 0 and len(res) > size:
+            hit("longer-than-limit", i)
         if kind == "readline":
             pos = res.find(b"\r\n")
             if pos >= 0 and pos != len(res) - 2:
@@ -241,11 +275,20 @@ def grid_chunk(args):
 
 def line_history(body, n, block, shorts, size, limit=SPIN_LIMIT):
     """the form parser's history: readline(size) until it returns b''"""
-    calls = []
+    from poorwsgi.request import CachedInput
+    stream = Stream(body, shorts, limit)
+    reader = CachedInput(stream, n, block, timeout=None)
+    calls, entries = [], []
     for _ in range(len(body) + 3):
         calls.append(("readline", size))
-        entries, _, stream = replay(body, n, block, shorts, calls, limit)
-        if entries[-1] is None or not entries[-1][0]:
+        stream.begin()
+        try:
+            res = reader.readline(size)
+        except Spin:
+            entries.append(None)
+            break
+        entries.append((res, stream.log, stream.zero_bounds))
+        if not res:
             break
     return tuple(calls), entries, stream.pos >= len(body)
 
@@ -309,12 +352,13 @@ def random_long(rng, quick):
 
 
 def production_block(rng):
-    """block size near the production value (cached_size 65365)"""
+    """block size near the production value (cached_size 65365); runs of
+    equal bytes so that the Coq terms stay small"""
     block = rng.choice((65365, 65364, 65366, 32768))
     body = bytearray()
     for _ in range(rng.randint(2, 4)):
-        seg = bytearray(rng.choice(b"abc") for _ in range(64)) * (block // 64)
-        body += seg
+        for _ in range(rng.randint(1, 4)):
+            body += bytes([rng.choice(b"abc\r\n")]) * rng.randint(1, block // 2)
         edge = (len(body) // block + 1) * block + rng.choice((-2, -1, 0, 5))
         if edge > len(body):
             body += b"y" * (edge - len(body))
@@ -376,7 +420,14 @@ def timeout_probe(ctx):
 
 
 def run(ctx):
+    marks = [("start", time.time())]
+
+    def mark(name):
+        marks.append((name, time.time()))
+        ctx.notes.append("phase %s: %.1fs" % (name, marks[-1][1] - marks[-2][1]))
+
     ctx.check_obligations()
+    mark("obligations")
     quick = ctx.quick
     rng = ctx.rng
     cases = []
@@ -412,7 +463,7 @@ def run(ctx):
         lmax = 6 if quick else 8
         lconfigs = [(b, n, k) for b in bodies(lmax) for n in declared(b)
                     for k in blocks]
-        keep = (4000.0 if quick else 150000.0) / (2 * len(lconfigs))
+        keep = (3000.0 if quick else 100000.0) / (2 * len(lconfigs))
         ljobs = [(c, rng.getrandbits(32), keep)
                  for c in chunks(lconfigs, 2000)]
         line_cases = []
@@ -421,23 +472,24 @@ def run(ctx):
             ctx.evaluations += out["histories"]
             note_hits(out["hits"])
             line_cases.extend(out["cases"])
-    budget = 9000 if quick else 400000
+    mark("exploration (monitor)")
+    budget = 5000 if quick else 250000
     if len(grid_cases) > budget:
         grid_cases = rng.sample(grid_cases, budget)
     for payload in grid_cases + line_cases:
         body, n, block, shorts, calls = payload
         entries, _, _ = replay(body, n, block, shorts, calls)
         cases.append((term(body, n, block, shorts, calls),
-                      expected(entries), payload))
+                      expected(entries), payload + (entries,)))
         ctx.case(("h",) + payload, any(e and e[0] for e in entries),
-                 describe(payload))
+                 describe(payload + (entries,)))
 
     # ---------------- random long bodies, short-reading streams
     long_cases = []
-    for i in range(600 if quick else 6000):
+    for i in range(240 if quick else 6000):
         body, n, block, shorts, calls = random_long(rng, quick)
         long_cases.append((body, n, block, shorts, calls, SPIN_LIMIT_LONG))
-    for i in range(4 if quick else 40):
+    for i in range(3 if quick else 40):
         body, n, block, shorts, calls = production_block(rng)
         long_cases.append((body, n, block, shorts, calls, SPIN_LIMIT_LONG))
     for body, n, block, shorts, calls, limit in long_cases:
@@ -447,12 +499,15 @@ def run(ctx):
         note_hits(monitor(body, n, block, shorts, calls, entries,
                           stream.pos >= len(body)))
         cases.append((term(body, n, block, shorts, calls, limit),
-                      expected(entries), payload))
+                      expected(entries), payload + (entries,)))
         ctx.count("long: " + ("blocking" if not shorts else
                               "zeros" if 0 in shorts else "short reads"))
         ctx.case(("long", body, n, block, shorts, calls), True)
 
+    rng.shuffle(cases)       # spread the expensive long cases over the shards
+    mark("case generation")
     ctx.correspondence("reader", IMPORTS, cases, describe)
+    mark("correspondence (coqc)")
     timeout_probe(ctx)
 
     # ---------------- verdict of the monitor
